@@ -111,6 +111,13 @@ CHECKS.update({
    note="The hash-seed dimension (HashMap iteration order across processes) cannot be enumerated without replacing RandomState throughout the compiler; it is covered only by R fresh processes per program (sampling, labelled as such in the evidence). The MIR text is not compared (it embeds interner ids).",
    design="4/C15"),
 })
+CHECKS.update({
+ "C14": dict(
+   technique="bounded-exhaustive enumeration of syntactically valid programs (families, layout/comment variants, hand-written production coverage, corpus) x line widths through the real formatter, with parse-back, comment and fixed-point oracles (shape E)",
+   text="Every program of the families below the bound in seven layout/comment variants, a set of hand-written texts covering the remaining productions, and every corpus file that parses, is formatted at six widths; the output must parse without errors to the same AST (spans erased), contain the same comments in the same order, and be a fixed point of the formatter.",
+   note="AST equality uses mimium's own structural print with spans erased. Indent size fixed at the default. The formatter is known to be experimental: many productions have open findings, each keyed on the production that triggers it.",
+   design="4/C14"),
+})
 NOT_YET = {}
 
 def main():
